@@ -99,18 +99,30 @@ def dimRe (attr : Str) : Bool :=
 def isPermission (attr : Str) : Bool :=
   attr == (chars! "public") || attr == (chars! "private") || attr == (chars! "protected")
 
+/-- the branch `DIM_RE.match(attr) and ("pointer" in attr or "allocatable" in attr or ...)`: the keywords are read
+    from the source (`Generated.C18Cfg.shapeStmtKeywords`) -/
+def isShapeAttr (attr : Str) : Bool :=
+  dimRe attr && Generated.C18Cfg.shapeStmtKeywords.any (fun k => containsSub k attr)
+
+/-- what the shape branch stores as the dimension: the array spec of the statement; in the repaired code
+    (`Generated.C18Cfg.shapeKeepsLength`) followed by what the declaration wrote behind the name unless that is an
+    array spec itself (`c*(80)`, `x[*]`) -/
+def shapeDimensionV (keeps : Bool) (old attr : Str) : Str :=
+  attr.dropWhile (· != '(') ++ (if keeps && old.head? != some '(' then old else [])
+
+def shapeDimension (old attr : Str) : Str := shapeDimensionV Generated.C18Cfg.shapeKeepsLength old attr
+
 /-- the attributes that `process_attribs` does not append to `var.attribs` as they are -/
 def isPlainAttr (attr : Str) : Bool :=
-  !isPermission attr && attr.take 6 != (chars! "intent") &&
-  !(dimRe attr && (containsSub (chars! "pointer") attr || containsSub (chars! "allocatable") attr)) &&
+  !isPermission attr && attr.take 6 != (chars! "intent") && !isShapeAttr attr &&
   attr != (chars! "parameter")
 
 /-- one attribute of an attribute statement applied to the variable it names -/
 def applyAttr (params : List (Str × Str)) (v : DVar) (attr : Str) : DVar :=
   if isPermission attr then { v with permission := attr }
   else if attr.take 6 == (chars! "intent") then { v with intent := (attr.drop 7).dropLast }
-  else if dimRe attr && (containsSub (chars! "pointer") attr || containsSub (chars! "allocatable") attr) then
-    { v with attribs := v.attribs ++ [attr.takeWhile (· != '(')], dimension := attr.dropWhile (· != '(') }
+  else if isShapeAttr attr then
+    { v with attribs := v.attribs ++ [attr.takeWhile (· != '(')], dimension := shapeDimension v.dimension attr }
   else if attr == (chars! "parameter") then
     { v with attribs := v.attribs ++ [attr], initial := lookupParam params (lower v.name) }
   else { v with attribs := v.attribs ++ [attr] }
